@@ -6,10 +6,13 @@ from pyvc.dsl import *  # noqa
 klass("TokenG", of="Token", fields=dict(tid=Int, is_eof=Bool))
 klass("ScannerG", of="TokenScanner", fields=dict(nlines=Int, pos=Int), record=False,
       invariant=[clause("range", lambda self: self.nlines >= 0 and self.pos >= 0)])
-klass("MatcherG", of="TokenMatcher", fields=dict(), record=False)
+klass("MatcherG", of="TokenMatcher", fields=dict(resets=Int), record=False)      # ghost: number of reset() calls
 klass("ResultG", fields=dict(), record=False)
 # ghost field `built`: the tokens the builder has received through build(), in order
-klass("BuilderG", of="AstBuilder", fields=dict(built=MutList(Val("TokenG"))), record=False)
+# ghost field `rules`: the start_rule / end_rule events it has received, in order ("+" / "-" + rule type)
+# ghost field `states`: the state argument of every match_token call of the current parse, in order
+klass("BuilderG", of="AstBuilder", fields=dict(built=MutList(Val("TokenG")), rules=MutList(Str), states=MutList(Int)),
+      record=False)
 klass("ContextG", of="ParserContext",
       fields=dict(token_scanner="ScannerG", token_matcher="MatcherG", token_queue=MutList(Val("TokenG")),
                   errors=MutList(Val("ParserException"))), record=False)
@@ -242,18 +245,21 @@ contract("gherkin.ast_builder.AstBuilder.build@BuilderG",
          modifies=["self.built"],
          ensures=[clause("received", lambda self, token: self.built == old(self.built) + [token])])
 contract("gherkin.ast_builder.AstBuilder.start_rule@BuilderG",
-         args=dict(self="BuilderG", rule_type=Str), returns=NoneT, abstract=True)
+         args=dict(self="BuilderG", rule_type=Str), returns=NoneT, abstract=True, modifies=["self.rules"],
+         ensures=[clause("opened", lambda self, rule_type: self.rules == old(self.rules) + ["+" + rule_type])])
 contract("gherkin.ast_builder.AstBuilder.end_rule@BuilderG",
-         args=dict(self="BuilderG", rule_type=Str), returns=NoneT, abstract=True,
-         raises=[raises("ParserException")],
+         args=dict(self="BuilderG", rule_type=Str), returns=NoneT, abstract=True, modifies=["self.rules"],
+         ensures=[clause("closed", lambda self, rule_type: self.rules == old(self.rules) + ["-" + rule_type])],
+         raises=[raises("ParserException", ensures=[clause("no-event", lambda self: self.rules == old(self.rules))])],
          notes="end_rule may raise AstBuilderException (ragged table): see c_ast_builder.py")
 contract("gherkin.ast_builder.AstBuilder.reset@BuilderG",
-         args=dict(self="BuilderG"), returns=NoneT, abstract=True, modifies=["self.built"],
-         ensures=[clause("fresh", lambda self: len(self.built) == 0)])
+         args=dict(self="BuilderG"), returns=NoneT, abstract=True, modifies=["self.built", "self.rules", "self.states"],
+         ensures=[clause("fresh", lambda self: len(self.built) == 0 and len(self.rules) == 0 and len(self.states) == 0)])
 contract("gherkin.ast_builder.AstBuilder.get_result@BuilderG",
          args=dict(self="BuilderG"), returns="ResultG", abstract=True)
 contract("gherkin.token_matcher.TokenMatcher.reset@MatcherG",
-         args=dict(self="MatcherG"), returns=NoneT, abstract=True)
+         args=dict(self="MatcherG"), returns=NoneT, abstract=True, modifies=["self.resets"],
+         ensures=[clause("counted", lambda self: self.resets == old(self.resets) + 1)])
 
 contract("gherkin.parser.Parser.build",
          args=dict(self="ParserG", context="ContextG", token=Val("TokenG")), returns=NoneT,
@@ -261,15 +267,24 @@ contract("gherkin.parser.Parser.build",
          ensures=[clause("delivered", lambda self, token: self.ast_builder.built == old(self.ast_builder.built) + [token],
                          serves=["C18", "C03"])])
 contract_family(
-    names=["start_rule", "end_rule"],
+    names=["start_rule:+", "end_rule:-"],
     template=contract("gherkin.parser.Parser.$X",
                       args=dict(self="ParserG", context="ContextG", rule_type=Str), returns=NoneT,
                       requires=[clause("cap", lambda context: len(context.errors) <= 10)],
-                      modifies=["context.errors"],
+                      modifies=["context.errors", "self.ast_builder.rules"],
                       ensures=[clause("cap", lambda context: len(context.errors) <= 10, serves=["C14", "C01"]),
                                clause("monotone", lambda context: len(context.errors) >= len(old(context.errors))
                                       and forall(len(old(context.errors)), lambda j: context.errors[j] == old(context.errors)[j]),
-                                      serves=["C14"])],
+                                      serves=["C14"]),
+                               # the builder receives exactly this event (unless it failed, which is then on record)
+                               clause("event", lambda self, context, rule_type:
+                                      self.ast_builder.rules == old(self.ast_builder.rules) + ["$K" + rule_type]
+                                      or (self.ast_builder.rules == old(self.ast_builder.rules) and len(context.errors) >= 1),
+                                      serves=["C02", "C03", "C18"]),
+                               clause("events-kept", lambda self: len(self.ast_builder.rules) >= len(old(self.ast_builder.rules))
+                                      and forall(len(old(self.ast_builder.rules)), lambda j:
+                                                 self.ast_builder.rules[j] == old(self.ast_builder.rules)[j]),
+                                      serves=["C02", "C03"])],
                       raises=[raises("ParserException", only_if=lambda self: self.stop_at_first_error, serves=["C14", "C01"]),
                               raises("CompositeParserException", serves=["C14", "C01"],
                                      ensures=[clause("eleven", lambda exc: len(exc.errors) == 11, serves=["C14", "C01"])])]))
@@ -289,8 +304,15 @@ contract("gherkin.parser.Parser.match_token",
          args=dict(self="ParserG", state=Int, token=Val("TokenG"), context="ContextG"), returns=Int, abstract=True,
          requires=[clause("run", lambda context: is_run(context.token_queue)),
                    clause("cap", lambda context: len(context.errors) <= 10)],
-         modifies=["context.token_queue", "context.token_scanner.pos", "context.errors", "self.ast_builder.built"],
+         modifies=["context.token_queue", "context.token_scanner.pos", "context.errors", "self.ast_builder.built",
+                   "self.ast_builder.rules", "self.ast_builder.states"],
          ensures=[
+             # ghost bookkeeping of the state chain: this call is recorded with its state argument, and its result is
+             # the (uninterpreted) successor chosen at this position of the parse
+             clause("state-logged", lambda self, state: self.ast_builder.states == old(self.ast_builder.states) + [state]),
+             clause("successor", lambda self, result: result == ghost_val("next_state", Int, len(old(self.ast_builder.states)))),
+             clause("rules-extended", lambda self: len(self.ast_builder.rules) >= len(old(self.ast_builder.rules))
+                    and forall(len(old(self.ast_builder.rules)), lambda j: self.ast_builder.rules[j] == old(self.ast_builder.rules)[j])),
              clause("nothing-lost", lambda context: len(context.token_queue) == len(old(context.token_queue)) + (
                  context.token_scanner.pos - old(context.token_scanner.pos))
                  and context.token_scanner.pos >= old(context.token_scanner.pos)),
@@ -318,8 +340,20 @@ contract("gherkin.parser.Parser.parse",
          args=dict(self="ParserG", token_scanner_or_str="ScannerG", token_matcher="MatcherG"),
          requires=[clause("fresh-scanner", lambda token_scanner_or_str: token_scanner_or_str.pos == 0)],
          returns="ResultG",
-         modifies=["token_scanner_or_str.pos", "self.ast_builder.built"],
+         modifies=["token_scanner_or_str.pos", "self.ast_builder.built", "self.ast_builder.rules", "self.ast_builder.states",
+                   "token_matcher.resets"],
          ensures=[
+             # the automaton is run from state 0 and every call gets the state the previous call returned
+             clause("state-chain", lambda self: len(self.ast_builder.states) >= 1 and forall(
+                 len(self.ast_builder.states), lambda j: self.ast_builder.states[j] == (
+                     0 if j == 0 else ghost_val("next_state", Int, j - 1))), serves=["C02", "C18"]),
+             clause("matcher-reset", lambda token_matcher: token_matcher.resets == old(token_matcher.resets) + 1,
+                    serves=["C15", "C02"]),
+             # the whole document is bracketed by the GherkinDocument rule
+             clause("bracketed", lambda self: len(self.ast_builder.rules) >= 2
+                    and self.ast_builder.rules[0] == "+GherkinDocument"
+                    and self.ast_builder.rules[len(self.ast_builder.rules) - 1] == "-GherkinDocument",
+                    serves=["C02", "C03"]),
              clause("all-delivered", lambda self, token_scanner_or_str:
                     len(self.ast_builder.built) == token_scanner_or_str.nlines + 1
                     and forall(len(self.ast_builder.built), lambda j: self.ast_builder.built[j] == stream_tok(
@@ -340,6 +374,16 @@ contract("gherkin.parser.Parser.parse",
                         serves=["C18"]),
                  clause("run", lambda context: is_run(context.token_queue), serves=["C18"]),
                  clause("cap", lambda context: len(context.errors) <= 10, serves=["C14", "C01"]),
+                 clause("state-chain", lambda self, state: state == (
+                     0 if len(self.ast_builder.states) == 0 else ghost_val("next_state", Int, len(self.ast_builder.states) - 1))
+                     and forall(len(self.ast_builder.states), lambda j: self.ast_builder.states[j] == (
+                         0 if j == 0 else ghost_val("next_state", Int, j - 1))), serves=["C02", "C18"]),
+                 clause("matcher-reset", lambda token_matcher: token_matcher.resets == entry(token_matcher.resets),
+                        serves=["C15", "C02"]),
+                 clause("opened", lambda self, context: implies(
+                     len(context.errors) == 0,
+                     len(self.ast_builder.rules) >= 1 and self.ast_builder.rules[0] == "+GherkinDocument"),
+                     serves=["C02", "C03"]),
                  clause("delivered", lambda self, context: implies(
                      len(context.errors) == 0,
                      len(self.ast_builder.built) == context.token_scanner.pos - len(context.token_queue)
